@@ -50,7 +50,7 @@ GTrue(g, C, gv) ==
     [] g.op = "not"  -> ~GTrue(g.kids[1], C, gv)
     [] g.op = "stateIn" /\ "stateIn" \notin D.guardImpl ->
           g.arg # <<>> /\ \E s \in C : IsSuffixSeq(g.arg, D.idSegs[s])
-    [] OTHER -> g.name \in DOMAIN gv /\ gv[g.name] = "T"
+    [] OTHER -> g.vk \in DOMAIN gv /\ gv[g.vk] = "T"
 
 --------------------------------------------------------------------------
 (* C02 -- selection                                                         *)
@@ -112,11 +112,17 @@ C02Select(out, i, gv, failed) ==
       fired == [j \in {x \in (i + 1)..(nx - 1) : out[x].k = "on_transition" /\ out[x].a # "start"} |-> out[j].b]
       firedSet == {fired[j] : j \in DOMAIN fired}
       exited == {out[j].a : j \in {x \in (i + 1)..(nx - 1) : out[x].k = "cancel"}}
+      aborted == failed \/ \E j \in (i + 1)..(nx - 1) : out[j].k = "loop_error"
   IN Tag(e.c = {TName(t) : t \in nom}, "nominees")          \* exactly the nominees are selected
      \cup Tag(e.b = "process" => firedSet \subseteq e.c, "only_selected_fire")
      \cup Tag(e.b = "process" => \A j, k \in DOMAIN fired : j # k => fired[j] # fired[k], "once")
+     \* a winner whose source was exited by an earlier winner of the same step is skipped:
+     \* whatever fires has its source in the configuration it fires from
      \cup Tag(e.b = "process" =>
-                (failed \/ \A t \in nom : TName(t) \in firedSet \/ D.trans[t].src \in exited), "all_fire")
+                \A j \in DOMAIN fired : \A t \in nom : TName(t) = fired[j] => D.trans[t].src \in out[j].d,
+            "stale_skipped")
+     \cup Tag(e.b = "process" =>
+                (aborted \/ \A t \in nom : TName(t) \in firedSet \/ D.trans[t].src \in exited), "all_fire")
      \cup Tag((e.b = "process" /\ e.c = {}) =>
                 \A j \in (i + 1)..(nx - 1) : out[j].k \notin EffectKinds, "noop")
      \cup Tag(e.b = "can" => \A j \in (i + 1)..(nx - 1) : out[j].k \notin EffectKinds, "can_pure")
